@@ -343,7 +343,7 @@ func (a *asm) owner0(mark func(), labels int) {
 	})
 }
 
-var bigKinds = []string{"random", "zeros-maxcounts", "quadratic", "txt", "opt", "https", "many-a", "long-name", "random-maxcounts"}
+var bigKinds = []string{"random", "zeros-maxcounts", "quadratic", "txt", "opt", "https", "many-a", "long-name", "random-maxcounts", "pointer-chain-fanin"}
 var bigSizes = []int{1024, 4096, 16384, maxInput}
 
 func bigClass(k int) (class string, drive bool) {
@@ -420,6 +420,27 @@ func bigInput(rng *mrand.Rand, k int) []byte {
 		a.u8(0)
 		a.u16(1)
 		a.u16(1)
+		return a.b
+	case 9:
+		// a chain of K strictly backward pointers ending in the root label, hidden in opaque RDATA,
+		// then R records whose owner name is a pointer to the head of the chain: K*R pointer hops
+		// (2.7e7 for 64 KiB) as long as following one pointer costs constant time
+		K := min(n/8, 8170) // compression pointers reach offsets below 16384 only
+		R := min((n-2*K-40)/12, 2500) // 2e7 hops: about 0.6 CPU-seconds for the unchanged decoder, well inside the budget
+		a.header(1, 0x8000, 0, R+1, 0, 0)
+		head := 0
+		a.rr(root(a), 0xff03, func() {
+			prev := a.off()
+			a.u8(0)
+			for i := 0; i < K; i++ {
+				head = a.off()
+				a.ptr(prev)
+				prev = head
+			}
+		})
+		for i := 0; i < R && a.off()+12 <= n; i++ {
+			a.rr(func() { a.ptr(head) }, 0xff04, func() {})
+		}
 		return a.b
 	default: // counts far beyond the data
 		b := rnd(rng, n)
